@@ -63,6 +63,9 @@ type RuleCfg struct {
 	// Before: another fastcgi rule is written first, for the whole site and another extension (.pl, to a
 	// backend nobody listens on); its base path matches every request, its split string none of ours
 	Before bool `json:"before,omitempty"`
+	// Ext: how the Casketfile spells the extension and split string of a non-preset rule (".php" when
+	// empty; ".PHP", ".Php" — the statement says "the rule's extension (in any letter case)")
+	Ext string `json:"ext,omitempty"`
 }
 
 type Req struct {
@@ -99,7 +102,11 @@ func casketfile(c *Case, dir string) string {
 		if c.Rule.Preset {
 			fmt.Fprintf(&sb, "\tfastcgi /app %s php {\n", addr)
 		} else {
-			fmt.Fprintf(&sb, "\tfastcgi /app %s {\n\t\text .php\n\t\tsplit .php\n\t\tindex index.php\n", addr)
+			ext := c.Rule.Ext
+			if ext == "" {
+				ext = ".php"
+			}
+			fmt.Fprintf(&sb, "\tfastcgi /app %s {\n\t\text %s\n\t\tsplit %s\n\t\tindex index.php\n", addr, ext, ext)
 		}
 		for _, kv := range c.Rule.Env {
 			fmt.Fprintf(&sb, "\t\tenv %s \"%s\"\n", kv[0], kv[1])
@@ -566,6 +573,9 @@ func genCase(t *rapid.T) *Case {
 	c.Rule.TCP = rapid.IntRange(0, 3).Draw(t, "tcp") == 0
 	c.Rule.Preset = rapid.Bool().Draw(t, "preset")
 	c.Rule.Before = rapid.IntRange(0, 2).Draw(t, "before") == 0
+	if !c.Rule.Preset {
+		c.Rule.Ext = rapid.SampledFrom([]string{"", "", ".PHP", ".Php", ".pHP"}).Draw(t, "ext")
+	}
 	if rapid.Bool().Draw(t, "env") {
 		c.Rule.Env = [][2]string{{"CUSTOM_A", "val-{method}"}, {"CUSTOM_B", "literal value"}}
 	}
@@ -591,6 +601,9 @@ func TestFastCGI(t *testing.T) {
 			classes = append(classes, "tcp")
 		} else {
 			classes = append(classes, "unix")
+		}
+		if c.Rule.Ext != "" {
+			classes = append(classes, "ext-spelled-in-other-case")
 		}
 		vt.Record("fastcgi", c, nt > 0, classes...)
 		vt.Extra("fastcgi", "exchanges", len(c.Reqs))
